@@ -184,6 +184,7 @@ impl Prop for C13 {
             faults = nodesim::gen_faults(&mut rng, n, last + 3000, 4, true);
             faults.extend(nodesim::gen_connect_faults(&mut rng, 2));
         }
+        faults.extend(nodesim::gen_freeze_faults(seed, n, last + 3000));
         // requests issued right when a connection dies: the protocol is told about the closure
         // before the manager is, which opens a window between the two views
         let mut ops = ops;
